@@ -51,6 +51,7 @@ func c15apiMix(rep *vh.Report, seed uint64, idx int) {
 		rep.Inconclusive("C15: " + err.Error())
 		return
 	}
+	peerKey := r.Bytes(32) // peers sign some of what they send
 	cons := newConsumer(rep, "C15", "mix", node)
 	cons.noAutomaton = true
 	var fwd int64
@@ -91,12 +92,16 @@ func c15apiMix(rep *vh.Report, seed uint64, idx int) {
 			for j := 0; j < 30 && atomic.LoadInt32(&stop) == 0; j++ {
 				_, _ = c.Write(uidFrame(uint64(j), byte(j), 8, j%4 == 0, nil, 0))
 				_, _ = c.Write(hbFrame(byte(1+j%200), byte(1+i%50), 3, 0))
+				if j%3 == 1 {
+					// a signed frame (the node checks no signatures): its signature block travels with the forwarded frame
+					_, _ = c.Write(uidFrame(uint64(j)|1<<40, byte(j), 8, false, peerKey, uint64(1000+i*100+j)))
+				}
 				time.Sleep(200 * time.Microsecond)
 			}
 			c.Close()
 		}
 	}()
-	// incoming traffic on the custom links: frames (v1 and v2) and ArduPilot heartbeats from new senders on >= 3 channels at once
+	// incoming traffic on the custom links: frames (v1, v2 and signed v2) and ArduPilot heartbeats from new senders on >= 3 channels at once
 	for ti, tr := range trs {
 		if ti >= 6 {
 			break
@@ -107,6 +112,10 @@ func c15apiMix(rep *vh.Report, seed uint64, idx int) {
 			for i := 0; atomic.LoadInt32(&stop) == 0; i++ {
 				tr.Feed(uidFrame(uint64(ti)<<32|uint64(i), byte(i), 9, i%3 == 0, nil, 0))
 				tr.Feed(hbFrame(byte(1+i%250), byte(1+(i/250)%250), 3, uint32(i)))
+				if i%3 == 2 {
+					tr.Feed(uidFrame(uint64(ti)<<32|uint64(i)|1<<40, byte(i), 9, false, peerKey, uint64(1000+i)))
+					rep.Count("signed_frames_fed", 1)
+				}
 				if i%4 == 1 {
 					// a frame whose id is not in the node's dialect, with a payload: forwarded as it is by the consumer
 					u := &ref.FrameSpec{Version: 2, Seq: byte(i), Sys: 7, Comp: 7, MsgID: 77777, Payload: []byte{1, 2, 3, 4, 5, 6, 7, 8, 9, 10, 11, 12, byte(i)}, Checksum: uint16(i)}
@@ -192,7 +201,7 @@ func TestC15(t *testing.T) {
 	rep := vh.NewReport("C15")
 	defer rep.Finish(t)
 	rep.Rule("Go race detector (GORACE halt_on_error=0, reports kept when a frame of github.com/bluenviron/gomavlib/v3 is on a stack, de-duplicated by outermost library entry points) over: an API mix " +
-		"(3-4 custom channels + a TCP server with peers coming and going, heartbeats at 5 ms, stream requests triggered from >= 3 channels at once, eight goroutines issuing all six Write* flavours with " +
+		"(3-4 custom channels + a TCP server with peers coming and going, incoming v1 / v2 / signed v2 frames and frames of unknown ids, heartbeats at 5 ms, stream requests triggered from >= 3 channels at once, eight goroutines issuing all six Write* flavours with " +
 		"their own v1/v2 frame objects and one shared message value, the consumer forwarding and fixing received frames, a channel closing and re-opening, Close racing with everything) and the workloads " +
 		"of C10, C11, C12 (random-instant closes over all eleven endpoint kinds), C13, C14 (client / serial reconnect sequences, servers with many peers) and C16 re-run under the detector; several shards with different GOMAXPROCS. distinct = interleaving signatures of the API-mix runs")
 	rep.Assume("each goroutine uses its own frame objects (the API mutates the frame it is given); absence of reports on the schedules run is not absence of races")
